@@ -277,11 +277,27 @@ def gen_rust(decls, order, kinds):
                 R.append(f"        .nth{i}({reb(t, f'r.nth{i}()')})")
             R.append("        .build()")
         elif k in ("struct", "table"):
-            if k == "table":
-                R.append("    w.visit(r.total_size());")
-                R.append("    w.visit(r.field_count());")
-                R.append("    w.visit(r.count_extra_fields());")
-                R.append("    w.visit(r.has_extra_fields() as usize);")
+            if k == "table" and len(p) > 0:
+                R.append("    if w.deep {")
+                R.append("        w.visit(r.total_size());")
+                R.append("        w.visit(r.field_count());")
+                R.append("        w.visit(r.count_extra_fields());")
+                R.append("        w.visit(r.has_extra_fields() as usize);")
+                R.append("    }")
+            elif k == "table":
+                # table without fields: the header accessors are called on their own so that a
+                # panic in them is attributed precisely (see known_findings.json)
+                R.append("    if w.deep {")
+                R.append("        w.visit(r.total_size());")
+                R.append("        match std::panic::catch_unwind(|| (r.field_count(), r.count_extra_fields(), r.has_extra_fields())) {")
+                R.append("            Ok((a, b, c)) => {")
+                R.append("                w.visit(a);")
+                R.append("                w.visit(b);")
+                R.append("                w.visit(c as usize);")
+                R.append("            }")
+                R.append("            Err(_) => w.empty_table_panics += 1,")
+                R.append("        }")
+                R.append("    }")
             R.append(f"    {E}::new_builder()")
             for f, t in p:
                 R.append(f"        .{f}({reb(t, f'r.{f}()')})")
@@ -298,11 +314,12 @@ def gen_rust(decls, order, kinds):
             R.append("    for i in 0..r.len() {")
             R.append(f"        b = b.push({reb(t, 'r.get(i).unwrap()')});")
             R.append("    }")
-            R.append("    let mut n = 0usize;")
-            R.append("    for it in r.iter() {")
-            R.append("        n += it.as_slice().len();")
-            R.append("    }")
-            R.append("    w.visit(n);")
+            if t != "byte":
+                R.append("    let mut n = 0usize;")
+                R.append("    for it in r.iter() {")
+                R.append("        n += it.as_slice().len();")
+                R.append("    }")
+                R.append("    w.visit(n);")
             R.append("    w.visit(r.get(r.len()).is_none() as usize);")
             R.append("    b.build()")
         elif k == "option":
@@ -372,17 +389,17 @@ def gen_rust(decls, order, kinds):
             R.append("    }")
         R.append("}")
         # verdicts
-        R.append(f"pub fn check_{n}(bs: &[u8]) -> Verdict {{")
+        R.append(f"pub fn check_{n}(bs: &[u8], deep: bool) -> Verdict {{")
         R.append(f"    let strict = packed::{n}Reader::from_slice(bs).is_ok();")
         R.append(f"    let strict_entity = {E}::from_slice(bs).is_ok();")
         R.append(f"    let compat_entity = {E}::from_compatible_slice(bs).is_ok();")
         R.append(f"    match packed::{n}Reader::from_compatible_slice(bs) {{")
         R.append("        Ok(r) => {")
-        R.append("            let mut w = Walk::default();")
+        R.append("            let mut w = Walk { deep, ..Walk::default() };")
         R.append(f"            let e = rebuild_{n}(r, &mut w);")
-        R.append("            Verdict { strict, strict_entity, compat: true, compat_entity, rebuilt: Some(e.as_slice().to_vec()), visits: w.n }")
+        R.append("            Verdict { strict, strict_entity, compat: true, compat_entity, rebuilt: Some(e.as_slice().to_vec()), visits: w.n, empty_table_panics: w.empty_table_panics }")
         R.append("        }")
-        R.append("        Err(_) => Verdict { strict, strict_entity, compat: false, compat_entity, rebuilt: None, visits: 0 },")
+        R.append("        Err(_) => Verdict { strict, strict_entity, compat: false, compat_entity, rebuilt: None, visits: 0, empty_table_panics: 0 },")
         R.append("    }")
         R.append("}")
         R.append("")
@@ -390,7 +407,7 @@ def gen_rust(decls, order, kinds):
     R.append("    pub name: &'static str,")
     R.append("    pub kind: &'static str,")
     R.append("    pub gen: fn(&mut Gen) -> Vec<u8>,")
-    R.append("    pub check: fn(&[u8]) -> Verdict,")
+    R.append("    pub check: fn(&[u8], bool) -> Verdict,")
     R.append("}")
     R.append("pub static TYPES: &[TypeEntry] = &[")
     for n in order:
